@@ -1561,3 +1561,99 @@ func structField(t types.Type, i int) *types.Var {
 	}
 	return nil
 }
+
+
+// condAtom: a boolean value known to be true (pol) or false (!pol) whenever control is in some block.
+type condAtom struct {
+	v   ssa.Value
+	pol bool
+}
+
+// knownConds returns the branch conditions that hold in block b, decomposed: negations, comparisons with
+// boolean constants, and the phis go/ssa builds for && and || in value position (tag-less switch cases,
+// assignments) are taken apart into their operands.
+func knownConds(b *ssa.BasicBlock) []condAtom {
+	var out []condAtom
+	seenB := map[*ssa.BasicBlock]bool{}
+	seenV := map[ssa.Value]bool{}
+	var fromBlock func(b *ssa.BasicBlock)
+	var decompose func(v ssa.Value, pol bool, depth int)
+	boolConst := func(v ssa.Value) (bool, bool) {
+		if c, ok := v.(*ssa.Const); ok && c.Value != nil && c.Value.Kind() == constant.Bool {
+			return constant.BoolVal(c.Value), true
+		}
+		return false, false
+	}
+	decompose = func(v ssa.Value, pol bool, depth int) {
+		if depth > 12 {
+			return
+		}
+		switch x := v.(type) {
+		case *ssa.UnOp:
+			if x.Op == token.NOT {
+				decompose(x.X, !pol, depth+1)
+				return
+			}
+		case *ssa.BinOp:
+			if x.Op == token.EQL || x.Op == token.NEQ {
+				for _, pair := range [][2]ssa.Value{{x.X, x.Y}, {x.Y, x.X}} {
+					if k, ok := boolConst(pair[0]); ok {
+						// (k == other) has value pol  =>  other == k iff pol (for ==)
+						want := k == pol
+						if x.Op == token.NEQ {
+							want = k != pol
+						}
+						decompose(pair[1], want, depth+1)
+						return
+					}
+				}
+			}
+		case *ssa.Phi:
+			if isBoolType(x.Type()) && !seenV[v] {
+				seenV[v] = true
+				idx, n := -1, 0
+				for i, op := range x.Edges {
+					if k, ok := boolConst(op); ok && k != pol {
+						continue // this edge gives the other value
+					}
+					idx = i
+					n++
+				}
+				if n == 1 {
+					decompose(x.Edges[idx], pol, depth+1)
+					p := x.Block().Preds[idx]
+					fromBlock(p)
+					// the edge itself, when the predecessor branches straight into the merge
+					if iff := blockIf(p); iff != nil && p.Succs[0] != p.Succs[1] {
+						if p.Succs[0] == x.Block() {
+							decompose(iff.Cond, true, depth+1)
+						} else if p.Succs[1] == x.Block() {
+							decompose(iff.Cond, false, depth+1)
+						}
+					}
+					return
+				}
+			}
+		}
+		out = append(out, condAtom{v, pol})
+	}
+	fromBlock = func(b *ssa.BasicBlock) {
+		if seenB[b] {
+			return
+		}
+		seenB[b] = true
+		for _, d := range b.Parent().Blocks {
+			iff := blockIf(d)
+			if iff == nil {
+				continue
+			}
+			for i := 0; i < 2; i++ {
+				if edgeDominates(d, i, b) {
+					decompose(iff.Cond, i == 0, 0)
+				}
+			}
+		}
+	}
+	fromBlock(b)
+	return out
+}
